@@ -62,6 +62,56 @@ def run(ctx):
     ctx.check("socket-provisioning", "closure-captures-this-iterations-socket", okcap, "the worker closure captures the socket bound in the same iteration",
               "the worker closure captures %s" % fmt(cterm), main.loc(sb))
 
+    # every socket bound to the serving address is read by a worker: with SO_REUSEPORT the kernel spreads datagrams over ALL sockets of the
+    # group, so a socket that is bound and kept alive without a thread reading it silently swallows its share of the requests
+    BIND = "roughenough_server::bind_socket"
+    binders = {BIND}
+    changed = True
+    while changed:
+        changed = False
+        for f in P.fns.values():
+            if f.path in binders or not f.path.startswith("roughenough_server"):
+                continue
+            r = W.ev(f.path).ret()
+            if values.contains(r, lambda x: is_call(x) and strip_generics(x[1]) in binders):
+                binders.add(f.path)
+                changed = True
+    nserve = 0
+    for f in P.fns.values():
+        if f.path in binders or f.derived:
+            continue
+        fev = None
+        for bb, t in f.calls():
+            if strip_generics(t["fn"].get("path", "")) not in binders:
+                continue
+            nserve += 1
+            fev = fev or W.ev(f.path)
+            ct = fev.call_term(bb)
+            handed = False
+            for sb2, t2 in f.calls():
+                nm = callee_name(t2["fn"].get("path", ""))
+                a2 = fev.call_args(sb2)
+                if nm in ("spawn", "spawn_unchecked", "spawn_scoped") and "thread" in t2["fn"].get("path", ""):
+                    if any(x[0] == "closure" and any(values.strip_payload(u) == ct for u in x[2]) for x in a2 if isinstance(x, tuple) and x):
+                        handed = True
+                elif nm == "drop" and a2 and values.strip_payload(a2[0]) == ct and all(f.dominates(sb2, s3) or not f.reaches(sb2, s3) for s3, _t in spawns):
+                    handed = True
+                elif strip_generics(t2["fn"].get("path", "")).endswith("Server::new") and any(values.strip_payload(x) == ct for x in a2):
+                    handed = True
+            if not handed:
+                # closed when its scope ends, before any worker is started
+                from lib import value_holders, normal_drops
+                dbl = normal_drops(f, value_holders(f, bb))
+                sp_here = [s3 for s3, _t in spawns] if f.path == main.path else []
+                if dbl and all(values.must_pass(f, dbl, from_block=f.succ(bb)[0], to_blocks={s3}) for s3 in sp_here if f.reaches(bb, s3)) and \
+                        (sp_here or values.must_pass(f, dbl, from_block=f.succ(bb)[0])):
+                    handed = True
+            k = "%s/bound-socket-%d" % (f.path.split("::")[-1], len([i for i in ctx.instances if i["rule"] == "socket-provisioning" and "/bound-socket-" in i["key"]]) + 1)
+            ctx.check("socket-provisioning", k, handed, "the socket bound here is moved into a worker thread (or closed before the workers start)",
+                      "%s binds a socket to the serving address that no worker thread receives: the kernel still delivers a share of the requests to it and they are never answered" % f.path,
+                      f.loc(bb))
+    ctx.floor("socket-provisioning", nserve, 1, "calls that bind a serving socket")
+
     # ------------------------------------------------------------------ (2) no blocking lock in the serving loop
     reach, ext, parent = P.reach([sm.PROCESS])
     blocking = [e for e in ext if any(x in e for x in ("Mutex", "RwLock", "Condvar", "mpsc::", "Barrier", "::park", "thread::sleep", "JoinHandle"))]
